@@ -195,6 +195,33 @@ func report(o *Options, res *runResult, smtDir string, wall time.Duration) int {
 			}
 		}
 	}
+	// vacuity: a unit whose only obligations were call-site preconditions (no
+	// postcondition of its own) and that now generates none of them checks nothing
+	if expected != nil && o.Only == "" {
+		hadPre := map[string]bool{}
+		hasPost := map[string]bool{}
+		for _, e := range expected.Obligations {
+			unit, name, _ := strings.Cut(e, "::")
+			if strings.HasPrefix(name, "pre@") {
+				hadPre[unit] = true
+			}
+			if strings.HasPrefix(name, "post#") {
+				hasPost[unit] = true
+			}
+		}
+		nowPre := map[string]bool{}
+		for _, ob := range res.obls {
+			if strings.HasPrefix(ob.Name, "pre@") {
+				nowPre[ob.Unit] = true
+			}
+		}
+		for _, u := range res.units {
+			if hadPre[u.name] && !hasPost[u.name] && !nowPre[u.name] && len(u.errs) == 0 {
+				path := writeReplayNote(replayDir, u.name, "pre@vanished", "on the reference tree this unit was checked through the preconditions of the functions it calls; none of those calls is generated any more, so nothing about it is verified")
+				violations = append(violations, violation{u.name, "pre@vanished", "all call-site precondition obligations of this unit disappeared", path, false})
+			}
+		}
+	}
 	// expected obligations that disappeared
 	if expected != nil && o.Only == "" {
 		unitPresent := map[string]bool{}
